@@ -174,8 +174,11 @@ def rule_set_algebra(ctx, rep, which=("int_fields", "txn_types")):
         where = _analysis_where(ctx, cls.mod.name, cls.name, "_union")
         key = "GroupSize" if name == "int_fields" else "TransactionType"
         for a, b in itertools.product(samples, samples):
-            u = _call(ctx, me, "_union", key, set(a), set(b))
-            i = _call(ctx, me, "_intersection", key, set(a), set(b))
+            a1, b1, a2, b2 = set(a), set(b), set(a), set(b)
+            u = _call(ctx, me, "_union", key, a1, b1)
+            i = _call(ctx, me, "_intersection", key, a2, b2)
+            rep.check(a1 == a and b1 == b and a2 == a and b2 == b, rule, f"{cls.name} lattice operations leave their arguments unchanged", where,
+                      [sorted(a1), sorted(b1), sorted(a2), sorted(b2)], "unchanged")
             rep.check(u == (a | b), rule, f"{cls.name}._union", where, u, sorted(a | b), sample={"a": sorted(a), "b": sorted(b)})
             rep.check(i == (a & b), rule, f"{cls.name}._intersection", where, i, sorted(a & b))
 
@@ -458,8 +461,12 @@ def rule_addr_lattice(ctx, rep):
         da, db = _den(a, ANY, NO), _den(b, ANY, NO)
         wu = "TOP" if "TOP" in (da, db) else da | db
         wi = db if da == "TOP" else da if db == "TOP" else da & db
-        gu = _den(_call(ctx, me, "_union", "RekeyTo", set(a), set(b)), ANY, NO)
-        gi = _den(_call(ctx, me, "_intersection", "RekeyTo", set(a), set(b)), ANY, NO)
+        a1, b1, a2, b2 = set(a), set(b), set(a), set(b)
+        gu = _den(_call(ctx, me, "_union", "RekeyTo", a1, b1), ANY, NO)
+        gi = _den(_call(ctx, me, "_intersection", "RekeyTo", a2, b2), ANY, NO)
+        rep.check(a1 == a and b1 == b and a2 == a and b2 == b, rule, "addr lattice operations leave their arguments unchanged", where,
+                  {"a": sorted(a), "b": sorted(b), "after union": [sorted(a1), sorted(b1)], "after intersection": [sorted(a2), sorted(b2)]}, "unchanged",
+                  why="the operands are live entries of the analysis tables: modifying them in place corrupts the stored information")
         rep.check(gu == wu, rule, "addr._union", where, {"a": sorted(a), "b": sorted(b), "got": _show(gu)}, {"want": _show(wu)},
                   sample={"a": sorted(a), "b": sorted(b), "union": _show(wu)})
         rep.check(gi == wi, rule, "addr._intersection", where, {"a": sorted(a), "b": sorted(b), "got": _show(gi)}, {"want": _show(wi)})
